@@ -141,6 +141,51 @@ def search(ctx: core.Ctx, modname: str, cfgs: list, max_depth: int, max_states: 
     }
 
 
+def _search_one(job):
+    """Sequential BFS of one cfg inside a worker (used when there are many small state spaces)."""
+    modname, cfg, max_depth = job
+    base0 = build(modname, cfg, [])
+    seen = {digest(base0.key())}
+    frontier = [[]]
+    depth = trans = nontriv = 0
+    viols_out = []
+    deepest = []
+    while frontier and depth < max_depth:
+        nxt = []
+        for h in frontier:
+            for ev, key, viols, nt in _expand((modname, cfg, h)):
+                trans += 1
+                nontriv += nt
+                for vk, what, extra in viols:
+                    viols_out.append((vk, what, {"cfg": cfg, "history": h + [ev], "extra": extra}))
+                if key not in seen:
+                    seen.add(key)
+                    nxt.append(h + [ev])
+        depth += 1
+        frontier = nxt
+        if nxt:
+            deepest = nxt[-1]
+    return {"cfg": cfg, "states": len(seen), "transitions": trans, "nontriv": nontriv, "depth_completed": depth,
+            "closed": not frontier, "violations": viols_out, "deepest": deepest}
+
+
+def search_many(ctx: core.Ctx, modname: str, cfgs: list, max_depth: int) -> dict:
+    """One sequential BFS per cfg, cfgs spread over the worker pool."""
+    results = core.pmap(_search_one, [(modname, c, max_depth) for c in cfgs], ctx.workers, chunksize=1)
+    out = {"states": 0, "transitions": 0, "nontrivial_transitions": 0, "per_cfg": [], "samples": [], "violations": [], "closed": True, "capped": False}
+    for r in results:
+        out["states"] += r["states"]
+        out["transitions"] += r["transitions"]
+        out["nontrivial_transitions"] += r["nontriv"]
+        out["per_cfg"].append({k: r[k] for k in ("cfg", "states", "transitions", "depth_completed", "closed")})
+        out["closed"] = out["closed"] and r["closed"]
+        if r["deepest"]:
+            out["samples"].append({"cfg": r["cfg"], "history": r["deepest"]})
+        for vk, what, rep in r["violations"]:
+            out["violations"].append(Violation(key=vk, what=what, replay=rep))
+    return out
+
+
 def replay_history(modname: str, data: dict) -> dict:
     """Plain replay of a recorded history (no explorer): returns per-step violations."""
     cfg, history = data["cfg"], data["history"]
